@@ -527,7 +527,15 @@ fn huge_oracle(p: &HugePlan, info: &mut Case) -> Result<(), String> {
     let terms: Vec<CASReconstructionTerm> = kept.iter().map(|k| to_term(*k)).collect();
     let byte_range = p.range.map(|_| FileRange { start, end });
     let want_len = end - start;
-    let tmp = tempfile::Builder::new().prefix("xvr-").tempdir_in(crate::engine::work_dir()).map_err(|e| format!("[sig:infra] tempdir: {e}"))?;
+    // the outputs (one at a time, > 4 GiB each) go to RAM-backed scratch space when there is plenty of it, so
+    // that the check does not depend on the disk's write throughput; otherwise to the work directory
+    let shm_free = unsafe {
+        let mut st: libc::statvfs = std::mem::zeroed();
+        let p = std::ffi::CString::new("/dev/shm").unwrap();
+        if libc::statvfs(p.as_ptr(), &mut st) == 0 { st.f_bavail as u64 * st.f_frsize as u64 } else { 0 }
+    };
+    let base = if shm_free > total + (8u64 << 30) { std::path::PathBuf::from("/dev/shm") } else { crate::engine::work_dir() };
+    let tmp = tempfile::Builder::new().prefix("xvr-").tempdir_in(base).map_err(|e| format!("[sig:infra] tempdir: {e}"))?;
     let (c0, _) = clients(&srv);
     for parallel in [true, false] {
         let what = if parallel { "parallel writer" } else { "sequential writer" };
